@@ -177,6 +177,10 @@ def mutate(sx, cname, slot):
             for k in list(base[dp].keys()):
                 targets.append(("opt", (dp, k)))
             targets.append(("opt-unknown", (dp, "zzz_unknown")))
+            # keys that parse() looks at but that the fully-optioned message did not marshal (read from parse()'s source)
+            for k in _keys_read_by_parse(cls):
+                if k not in base[dp]:
+                    targets.append(("opt", (dp, k)))
     log = []
     for kind, where in targets:
         values = _menu(sx, "%s.%s.%s" % (cname, kind, where)) if kind in ("pos", "opt", "opt-unknown") else [None]
@@ -224,6 +228,36 @@ def mutate(sx, cname, slot):
 
 
 REQ_LEN = {}
+
+
+def _keys_read_by_parse(cls):
+    """string keys that cls.parse() reads from the options/details dict: `"k" in details`, `details["k"]`, `details.get("k")` (from the AST
+    of the current source)"""
+    import ast
+    import inspect
+    import textwrap
+    try:
+        tree = ast.parse(textwrap.dedent(inspect.getsource(cls.parse)))
+    except (OSError, TypeError, SyntaxError):
+        return []
+    names = ("options", "details")
+    keys = []
+
+    def is_dict(n):
+        return isinstance(n, ast.Name) and n.id in names
+    for n in ast.walk(tree):
+        k = None
+        if isinstance(n, ast.Compare) and len(n.ops) == 1 and isinstance(n.ops[0], (ast.In, ast.NotIn)) and is_dict(n.comparators[0]) \
+                and isinstance(n.left, ast.Constant) and isinstance(n.left.value, str):
+            k = n.left.value
+        elif isinstance(n, ast.Subscript) and is_dict(n.value) and isinstance(n.slice, ast.Constant) and isinstance(n.slice.value, str):
+            k = n.slice.value
+        elif isinstance(n, ast.Call) and isinstance(n.func, ast.Attribute) and n.func.attr == "get" and is_dict(n.func.value) and n.args \
+                and isinstance(n.args[0], ast.Constant) and isinstance(n.args[0].value, str):
+            k = n.args[0].value
+        if k is not None and k not in keys:
+            keys.append(k)
+    return keys
 
 
 def roles(sx, cname):
